@@ -18,6 +18,13 @@ def run(ctx):
                 "own sockets, create / connect / exchange / read attributes / close on all seven transports in barrier-synchronised "
                 "bursts (shared eventfd and cached SSL_CTX created and destroyed concurrently), sockets handed to another thread through "
                 "a mutex-protected slot; sockets created at the same instant must get distinct ids (one control file per live socket).")
+    # the regenerated table the theorems decide over: one non-trivial item per (variable, function, protection kind)
+    import re as _re, os as _os
+    gl = open(_os.path.join(common.VERIF, "lean", "XcmModel", "Generated", "Globals.lean")).read()
+    for m_ in _re.finditer(r'\("([^"]+)", "([^"]+)", "([^"]+)", (\d+), (\d+), "([^"]*)"\)', gl):
+        ctx.nontriv(("site", m_.group(1), m_.group(2), m_.group(3), m_.group(5), m_.group(6)))
+        ctx.count("sites.kind%s" % m_.group(5))
+        ctx.evaluations += 1
     exe = threads.build()
     cmds = ["THREADS 8 %d" % (6 if quick else 60), "IDS 8 %d" % (300 if quick else 5000)]
     rc, out, err = threads.run(exe, cmds, ctx, timeout=3000)
